@@ -31,7 +31,7 @@ ASSUMPTIONS = [
 ]
 
 KMAX = {'quick': 2048, 'thorough': 16384}
-NRAND = {'quick': 20_000, 'thorough': 1_000_000}
+NRAND = {'quick': 20_000, 'thorough': 4_000_000}
 NSH = 16
 
 
